@@ -288,11 +288,15 @@ def shapeop_case(rng, tier):
     elif op in ('conj', 'real', 'imag', 'fft', 'ifft'):
         s = tuple(rng.randint(1, 4) for _ in range(rng.randint(1, 3)))
         c['x'] = intdata(rng, (D, P) + s) + 1j * intdata(rng, (D, P) + s)
+        if op in ('conj', 'real', 'imag') and rng.random() < 0.4:
+            c['x'] = intdata(rng, (D, P) + s)          # real data: conj / real are the identity on the values, imag is zero
         c['axis'] = rng.choice(list(range(-len(s), len(s))))
         if op in ('fft', 'ifft') and rng.random() < 0.4:
             c['n'] = rng.randint(1, 6)          # truncating / zero-padding transform length
     else:
         c['x'] = intdata(rng, (D, P) + tuple(rng.randint(1, 3) for _ in range(rng.randint(0, 2))))
+        if rng.random() < 0.12:
+            c['x'] = intdata(rng, (D, P) + rng.choice([(0,), (2, 0), (0, 3)]))          # an empty array (an axis of length 0)
         if op in ('zeros', 'ones'):
             c['form'] = rng.choice(['tuple', 'tuple', 'list', 'npints', 'nparray'])
     return c
@@ -401,6 +405,16 @@ def shapeop_fails(ctx, case):
             return 'shapeop-traced-%s: the traced call (Function operand) differs from the direct call on the same data' % op
     if op in ('transpose', 'T') and not np.shares_memory(y.data, u.data):
         return 'shapeop-view-%s: the transpose does not share memory with its parent' % op
+    # where NumPy returns a fresh array, the result must not be a view of the argument (writing into it would update the parent)
+    if g is not None and x.ndim >= 3 and y.data.size and op not in ('reshape', 'transpose', 'T', 'real', 'imag', 'diag', 'diag2'):
+        sl = x[0, 0].copy()
+        try:
+            r0 = g(sl)
+            fresh = isinstance(r0, np.ndarray) and not np.shares_memory(r0, sl)
+        except Exception:
+            fresh = False
+        if fresh and np.shares_memory(y.data, u.data):
+            return 'shapeop-alias-%s: the result shares memory with its argument although NumPy returns a fresh array' % op
     # model comparisons for the modelled structural ops
     if op == 'sum' and isinstance(case.get('axis'), int):
         m = ctx.model.arrs({'op': 'np', 'what': 'utsum', 'x': enc_arr(x), 'axis': int(case['axis'])})
